@@ -39,6 +39,12 @@ def run_property(prop: str, tier: str, seed: int, only: Optional[str] = None,
         if only and only not in r.id:
             continue
         results.append(r)
+    # 1c. lemmas over spec functions (explicit induction), with their definitions checked against the real routines
+    from pyvc.lemmas import run_lemmas
+    for r in run_lemmas(prop):
+        if only and only not in r.id:
+            continue
+        results.append(r)
     # 2. bounded side
     try:
         bm = importlib.import_module(f'bounded.{prop.lower()}')
@@ -69,6 +75,17 @@ def make(prop: str, **meta):
         if '.B.contract-twin.' in ob_id:
             from pyvc.replay import replay_obligation as rp
             return rp(ob_id, doc)
+        if '.L.' in ob_id and '.B.' not in ob_id:
+            from pyvc.lemmas import run_lemmas
+            for r in run_lemmas(prop):
+                if r.id == ob_id and r.failures:
+                    return (r.failures[0].key, r.failures[0].message)
+            return None
+        if '.B.lemma-defs.' in ob_id:
+            from pyvc.lemmas import DEFS
+            fn, _ = DEFS[ob_id.split('.B.lemma-defs.')[1]]
+            msg = fn(doc['recipe']['word'])
+            return ('definition', msg) if msg else None
         if '.S.' in ob_id:
             from pyvc.static import replay_static
             return replay_static(ob_id)
